@@ -7,7 +7,8 @@ D = '@^(DashMap|Entry|OccupiedEntry|VacantEntry)::(insert|remove|entry|alter|cle
 CENSUS = {
     'C03': ['Storage::rollback_to_block' + S, 'Storage::filter_block' + S, 'Storage::update_block_number' + S,
             'Storage::update_filter_scripts' + S[:-2] + '|Storage::clear_matched_blocks|Storage::filter_block)$'],
-    'C04': ['Storage::rollback_to_block' + S],
+    'C04': ['Storage::rollback_to_block' + S, 'Storage::filter_block' + S],   # filter_block: the script set it indexes for must agree with the
+                                                                                # progress rollback_to_block records (seeded C04-5)
     'C08': ['Storage::init_genesis_block' + S[:-2] + '|Storage::filter_block|Storage::update_last_state)$', 'Storage::update_last_state' + S, 'Storage::add_matched_blocks' + S, 'Storage::remove_matched_blocks' + S, 'Storage::update_min_filtered_block_number' + S],
     'C09': ['!<BlockFilterRpcImpl as BlockFilterRpc>::set_scripts@^(Storage::update_filter_scripts|HashMap::clear)$', 'Storage::update_filter_scripts' + S[:-2] + '|Storage::clear_matched_blocks|Storage::filter_block)$', 'Storage::clear_matched_blocks' + S],
     'C11': ['!LightClientProtocol::process_last_state@^Peers::update_last_state$', '~Peers::get_peers_which_have_timeout', '~Peers::get_peers_which_require_new_state', '~Peers::get_peers_which_require_new_proof',
